@@ -171,7 +171,11 @@ class FnInfo:
 
 LEAN_KEYWORDS = {"from", "at", "end", "fun", "in", "let", "do", "then", "else", "if", "match", "with", "open", "type", "where",
                  "have", "show", "by", "def", "theorem", "instance", "structure", "class", "for", "return", "mut", "namespace",
-                 "section", "variable", "import", "lower", "this", "some", "none", "true", "false", "Type", "Prop", "Sort"}
+                 "section", "variable", "import", "lower", "this", "some", "none", "true", "false", "Type", "Prop", "Sort", "matches", "nomatch",
+                 "nofun", "try", "catch", "finally", "unless", "break", "continue", "suffices", "calc", "private", "protected", "partial",
+                 "unsafe", "mutual", "macro", "syntax", "notation", "deriving", "extends", "export", "universe", "attribute", "local",
+                 "scoped", "noncomputable", "example", "abbrev", "axiom", "inductive", "opaque", "using", "throw", "pure", "bind", "id",
+                 "self_", "L", "Zc", "Py"}
 
 
 def balanced(t):
@@ -342,10 +346,16 @@ class FnTr(Tr):
     def num(self, e):
         if isinstance(e, ast.Name) and e.id in self.env and self.fx.lookup(e.id) is None:
             return super().num(e)
+        if isinstance(e, (ast.IfExp, ast.BoolOp)):
+            self.guard += 1
+            try:
+                return super().num(e)
+            finally:
+                self.guard -= 1
         is_cast = isinstance(e, ast.Call) and isinstance(e.func, ast.Name) and e.func.id in ("int", "float", "_int", "_float", "min", "max")
         if isinstance(e, (ast.Name, ast.Attribute, ast.Subscript)) or (isinstance(e, ast.Call) and not is_cast):
             v = self.fx.expr(e)
-            if v.raises:
+            if v.raises and self.guard > 0:
                 self.fx.raising_subexpr(e)
             if v.ty == NUM:
                 return v.text, 1
@@ -356,6 +366,8 @@ class FnTr(Tr):
 
     def boolean(self, e):
         return self.fx.cond(e)
+
+    guard = 0
 
 
 # --------------------------------------------------------------------------------------
@@ -374,6 +386,7 @@ class Fx:
         self.params = []
         self.loop_depth = 0
         self.local_types = {k: area.ty(v) for k, v in spec.get("locals", {}).items()}
+        self.env_calls = {n: [area.ty(t), False] for n, t in spec.get("env", [])}
         self.reads_log = []  # stack of sets (variables read inside the loops being translated)
         self.kill_log = []
 
@@ -532,9 +545,10 @@ class Fx:
             if st is not None:
                 return self.expr0(e.body if st else e.orelse, want)
             c = self.cond(e.test)
+            n0 = len(self.lines)
             a = self.expr(e.body, want)
             b = self.expr(e.orelse, want or a.ty)
-            if a.raises or b.raises:
+            if a.raises or b.raises or len(self.lines) != n0:
                 self.raising_subexpr(e)
             if a.ty != b.ty:
                 a = self.coerce(a, b.ty, e) if b.ty.k == "Opt" else a
@@ -690,11 +704,17 @@ class Fx:
                 if raises and parts:
                     self.raising_subexpr(g.iter)
                 pat = self.bind_target(g.target, et, e)
+                n0 = len(self.lines)
                 conds = [self.cond_val(c) for c in g.ifs]
+                if len(self.lines) != n0:
+                    self.fail("a call with effects inside a comprehension is outside the subset", e)
                 if any(c.raises for c in conds):
                     self.raising_subexpr(e)
                 parts.append((src, pat, [c.text for c in conds]))
+            n0 = len(self.lines)
             elt = self.expr(e.elt, want.a[0] if (want is not None and want.k in ("List", "Set")) else None)
+            if len(self.lines) != n0:
+                self.fail("a call with effects inside a comprehension is outside the subset", e)
         finally:
             self.scopes.pop()
         # innermost generator first
@@ -729,9 +749,8 @@ class Fx:
         return Val(text, T("List", elt.ty), None, elt.raises)
 
     # ---- conditions
-    def cond_val(self, e):
-        before = self.info.monadic
-        t = self.cond(e)
+    def cond_val(self, e, top=False):
+        t = self.cond(e, top)
         return Val(t, BOOL, None, "(← " in t)
 
     def truthy(self, v, node):
@@ -752,16 +771,30 @@ class Fx:
             return "(Option.isSome %s)" % v.text
         self.fail("truthiness of a value of type %r is outside the subset" % t, node)
 
-    def cond(self, e):
-        """Python expression in a boolean position -> Lean Bool text (pure; raising parts are rejected by the caller)"""
+    def cond(self, e, top=False):
+        """Python expression in a boolean position -> Lean Bool text.  `top`: the test of an `if`/`assert` statement, where a
+        short-circuit chain whose later operands may raise becomes a nested `do` block that returns as soon as it is decided"""
         A = self.area
         if isinstance(e, ast.Constant) and isinstance(e.value, bool):
             return "true" if e.value else "false"
         if isinstance(e, ast.BoolOp):
-            parts = [self.cond_val(v) for v in e.values]
-            for p, node in list(zip(parts, e.values))[1:]:
-                if p.raises:
-                    self.raising_subexpr(node)
+            parts = []
+            for i, v in enumerate(e.values):
+                n0 = len(self.lines)
+                parts.append(self.cond_val(v))
+                if i > 0 and len(self.lines) != n0:
+                    self.fail("a call with effects under a short-circuit operator is outside the subset: " + ast.unparse(v), v)
+            if any(p.raises for p in parts[1:]):
+                if not top:
+                    self.raising_subexpr(e)
+                is_and = isinstance(e.op, ast.And)
+                name = self.fresh("c")
+                self.emit("let %s ← (do" % name)
+                for p in parts[:-1]:
+                    self.emit("  if %s then return %s" % (neg(p.text) if is_and else p.text, "false" if is_and else "true"))
+                self.emit("  return %s)" % parts[-1].text)
+                self.monadic()
+                return name
             op = " && " if isinstance(e.op, ast.And) else " || "
             return "(" + op.join(p.text for p in parts) + ")"
         if isinstance(e, ast.UnaryOp) and isinstance(e.op, ast.Not):
@@ -799,6 +832,10 @@ class Fx:
                         self.fail("`in` against a value of type %r" % rv.ty, e)
                 return s if isinstance(op, ast.In) else neg(s)
             lv, rv = self.try_expr(l), self.try_expr(r)
+            if lv is not None and rv is not None and lv.ty == NAT and rv.ty == NUM:
+                rv = self.try_expr(r, NAT) or rv
+            if lv is not None and rv is not None and rv.ty == NAT and lv.ty == NUM:
+                lv = self.try_expr(l, NAT) or lv
             if lv is not None and rv is not None and isinstance(op, (ast.Eq, ast.NotEq)) and not (lv.ty.k in ("Num", "Nat") and rv.ty.k in ("Num", "Nat") and lv.ty != rv.ty):
                 if lv.ty != rv.ty:
                     self.fail("comparison of %r with %r" % (lv.ty, rv.ty), e)
@@ -852,6 +889,11 @@ class Fx:
                 return self.expr(e.args[1], want)
             if n in ("int", "float", "_int", "_float", "min", "max"):
                 return self.numeric(e, want)
+            if n in self.env_calls and not e.args:
+                if self.env_calls[n][1]:
+                    self.fail("%s() is called twice: two readings of the environment cannot share one parameter" % n, e)
+                self.env_calls[n][1] = True
+                return Val(lean_local(n), self.env_calls[n][0])
             key = (None, n)
             if key in A.fns:
                 return self.call_translated(A.fns[key], None, e.args, e)
@@ -929,8 +971,12 @@ class Fx:
             self.fail("setdefault on something that is not an lvalue", e)
         k = self.expr(e.args[0], b.ty.a[0])
         d = self.expr(e.args[1], b.ty.a[1])
-        if k.raises or d.raises or b.raises:
+        if d.raises or b.raises:
             self.raising_subexpr(e)
+        if k.raises:
+            kn = self.fresh("key")
+            self.emit("let %s := %s" % (kn, k.text))
+            k = Val(kn, k.ty)
         r = self.fresh("sd")
         self.emit("let %s := PyDict.setdefault %s %s %s %s" % (r, eq, b.text, k.text, d.text))
         self.assign_path(b.path, "%s.2" % r, e)
@@ -943,13 +989,14 @@ class Fx:
         if fi.has_self:
             sv = self.expr(selfnode)
             args.append((("self", sv.ty), sv))
+        if getattr(fi, "env", None):
+            self.fail("call of %s, which reads the environment (%s): outside the subset" % (fi.lean, fi.env), node)
         if len(argnodes) != len(params):
             self.fail("call of %s with %d arguments (spec has %d)" % (fi.lean, len(argnodes), len(params)), node)
         for (pn, pt), an in zip(params, argnodes):
             args.append(((pn, pt), self.expr(an, pt)))
-        for (_p, a) in args:
-            if a.raises:
-                self.raising_subexpr(node)
+        if any(a.raises for _p, a in args):
+            self.monadic()  # `(← …)` arguments are lifted left to right in front of the call: Python's order
         # mutated parameters need an lvalue to write the new object back to
         wb = []
         for (pn, pt), a in args:
@@ -1149,7 +1196,7 @@ class Fx:
             self.emit("throw PyExc.%s" % A.exc[n.id])
             return True
         if isinstance(s, ast.Assert):
-            c = self.cond_val(s.test)
+            c = self.cond_val(s.test, top=True)
             self.monadic()
             self.emit("pyAssert %s" % c.text)
             return False
@@ -1395,10 +1442,8 @@ class Fx:
             t2 = self.block(none_branch) if none_branch else (self.emit("pure ()") or False)
             self.ind -= 1
             return t1 and t2
-        c = self.cond_val(s.test)
-        if c.raises:
-            # the test itself may raise: evaluate it first (statement position, so the lifting is in order)
-            pass
+        # a raising test is lifted in front of the `if` (statement position): Python's order
+        c = self.cond_val(s.test, top=True)
         self.emit("if %s then" % c.text)
         self.ind += 1
         t1 = self.block(s.body)
@@ -1564,6 +1609,8 @@ def translate_function(area, fn, spec, cls):
     for p in info.mutated:
         head.append("  let mut %s := %s" % (lean_local(p), lean_local(p)))
     sig = "".join(" (%s : %s)" % (lean_local(n), area.lean_ty(T("Class", cls)) if n == "self" else area.lean_ty(dict(params)[n])) for n in pnames)
+    sig += "".join(" (%s : %s)" % (lean_local(n), area.lean_ty(area.ty(t))) for n, t in spec.get("env", []))
+    info.env = list(spec.get("env", []))
     low = " (lower : String → String)" if info.uses_lower else ""
     doc = "/-- `%s` (%s:%d)%s -/" % (where, area.rel, fn.lineno, "" if not info.mutated else "; returns " + ("the result and " if info.ret != NONE else "") + "the changed " + ", ".join(info.mutated))
     if info.monadic:
